@@ -16,8 +16,15 @@ def run(ctx, replay):
         return ctx.finish("model_checking")
     thorough = ctx.tier == "thorough"
     cases = os.path.join(ctx.scratch, "cases.ndjson")
-    ctx.tlc("Filter", "MCFilter.cfg", consts={"Tier": ctx.tier, "Emit": True}, emit_to=cases,
-            timeout=3400 if thorough else 900, name="MCFilter")
+    # the catalogue in five parts, one TLC process each (building the case set is the serial part of a TLC run)
+    import concurrent.futures
+    parts = [os.path.join(ctx.scratch, "cases-%d.ndjson" % k) for k in range(1, 6)]
+    with concurrent.futures.ThreadPoolExecutor(max_workers=5) as ex:
+        list(ex.map(lambda k: ctx.tlc("Filter", "MCFilter.cfg", consts={"Tier": ctx.tier, "Emit": True, "Part": k}, emit_to=parts[k - 1], workers=3,
+                                      timeout=3400 if thorough else 900, name="MCFilter[%d/5]" % k), range(1, 6)))
+    with open(cases, "w") as out:
+        for pth in parts:
+            out.write(open(pth).read())
     for b in ("hideFirst", "emptyIgnore"):
         g = ctx.tlc("Filter", "MCFilter.cfg", consts={"Tier": "guard", "Emit": False, "Broken": b},
                     expect_ok=False, timeout=900, name="MCFilter-broken-" + b)
